@@ -57,16 +57,17 @@ type hWordGap struct {
 }
 
 type hFlat struct {
-	structure []string  // O/C sequence with names
-	attrs     [][]hAttr // per open event
-	opens     []string
-	words     []hWordGap
-	tailWS    bool
-	tailBrk   bool
-	comments  []string
-	preText   []string // exact text inside pre/textarea/raw elements
-	payloads  []struct{ kind, typ, text string }
-	doctype   bool
+	structure  []string  // O/C sequence with names
+	attrs      [][]hAttr // per open event
+	opens      []string
+	words      []hWordGap
+	tailWS     bool
+	tailBrk    bool
+	comments   []string
+	commentCtx []string // "path of open elements: text" - where a kept comment sits in the tree
+	preText    []string // exact text inside pre/textarea/raw elements
+	payloads   []struct{ kind, typ, text string }
+	doctype    bool
 }
 
 var hRawTextElems = setOf("script", "style")
@@ -101,6 +102,7 @@ func flattenHTML(evs []hEvent) *hFlat {
 		case 'M':
 			if skip == 0 {
 				f.comments = append(f.comments, e.Data)
+				f.commentCtx = append(f.commentCtx, strings.Join(stack, ">")+": "+e.Data)
 			}
 		case 'O':
 			if skip > 0 {
@@ -398,11 +400,18 @@ func compareHTML(in, out string, c c03Opts, m *minify.M) string {
 	if s := gapRule(fi.tailWS, fo.tailWS, true, c.o.KeepWhitespace, true); s != "" {
 		return "whitespace at the end of the document: " + s
 	}
-	// comments
+	// comments (where a kept comment sits is judged last: the payload rules below still apply to such a document)
+	moved := ""
 	switch {
 	case c.o.KeepComments:
 		if strings.Join(fi.comments, "\x00") != strings.Join(fo.comments, "\x00") {
 			return fmt.Sprintf("KeepComments: comments changed %q -> %q", fi.comments, fo.comments)
+		}
+		for k := range fi.commentCtx {
+			if k < len(fo.commentCtx) && fi.commentCtx[k] != fo.commentCtx[k] {
+				moved = c03CommentMoved("KeepComments", fi.commentCtx[k], fo.commentCtx[k])
+				break
+			}
 		}
 	default:
 		var want []string
@@ -415,6 +424,20 @@ func compareHTML(in, out string, c c03Opts, m *minify.M) string {
 		}
 		if strings.Join(want, "\x00") != strings.Join(fo.comments, "\x00") {
 			return fmt.Sprintf("comments in output %q, expected %q", fo.comments, want)
+		}
+		if c.o.KeepSpecialComments {
+			var wantCtx []string
+			for k, cm := range fi.comments {
+				if strings.HasPrefix(cm, "#") {
+					wantCtx = append(wantCtx, fi.commentCtx[k])
+				}
+			}
+			for k := range wantCtx {
+				if k < len(fo.commentCtx) && wantCtx[k] != fo.commentCtx[k] {
+					moved = c03CommentMoved("KeepSpecialComments", wantCtx[k], fo.commentCtx[k])
+					break
+				}
+			}
 		}
 	}
 	// payload slots
@@ -442,7 +465,7 @@ func compareHTML(in, out string, c c03Opts, m *minify.M) string {
 			return fmt.Sprintf("<%s> content is not what the registered minifier returns: got %q want %q", p.kind, core.Trunc(q.text, 80), core.Trunc(string(want), 80))
 		}
 	}
-	return ""
+	return moved
 }
 
 func gapRule(wsIn, wsOut, brk, keepWS, edge bool) string {
@@ -588,6 +611,21 @@ func firstDiff(a, b []string) string {
 	return fmt.Sprintf("at %d: …%v vs …%v", i, a[lo:ha], b[lo:hb])
 }
 
+// c03CommentMoved words the verdict for a kept comment that changed its parent.  Where the new parent is an element
+// whose end tag (or the document tags) the minifier drops without looking at what follows, this is the known finding
+// html-kept-comment-reparented (prefix COMMENTMOVE:); anywhere else it is a violation of its own.
+func c03CommentMoved(opt, from, to string) string {
+	parent := to[:strings.Index(to, ": ")]
+	if k := strings.LastIndexByte(parent, '>'); k >= 0 {
+		parent = parent[k+1:]
+	}
+	msg := fmt.Sprintf("%s: a kept comment moved in the tree: %q -> %q", opt, from, to)
+	if setOf("option", "optgroup", "li", "dt", "dd", "td", "th", "tr", "thead", "tbody", "tfoot", "colgroup", "head", "html", "body", "rt", "rp", "caption", "table")[parent] {
+		return "COMMENTMOVE:" + msg
+	}
+	return msg
+}
+
 func firstDiffWords(a, b []hWordGap) string {
 	i := 0
 	for i < len(a) && i < len(b) && a[i].word == b[i].word {
@@ -657,6 +695,7 @@ func C03(run *core.Run) {
 			run.Inconclusive()
 		case strings.HasPrefix(v, "REJECTED"):
 			run.Count("minifier_rejected")
+		case strings.HasPrefix(v, "COMMENTMOVE:") && run.KnownSignature("html-kept-comment-reparented"):
 		default:
 			key := core.Key(cfg, []byte(doc))
 			if run.IsKnown(core.Key("*", []byte(doc))) {
